@@ -29,7 +29,7 @@ CONFIG = dict(
     min_nontrivial={"quick": 600, "thorough": 10000},
     nshards={"quick": 8, "thorough": 16},
     timeout={"quick": 600, "thorough": 3600},
-    required_counters=("framing_checked", "inject_runs", "out_of_range_runs", "decompile_runs", "results_compared", "subprocess_runs"),
+    required_counters=("emitted_target_run_on_reference_vm", "framing_checked", "inject_runs", "out_of_range_runs", "decompile_runs", "results_compared", "subprocess_runs"),
 )
 
 INJ = "__import__('vp_sink').hit('CLI')"
@@ -82,6 +82,19 @@ def part_pool(ctx):
     pool += [pickle.dumps([True, 1, False, 0], 0), pickle.dumps([1, True, 0, False], 0), pickle.dumps([0.0, -0.0, 0.0], 2),
              b"(I1\nI01\nI1\nl.", b"(\x8a\x01\x05\x8a\x02\x05\x00\x8a\x01\x05t."]
     pool.append(b"\x8c\x03pid\x94Q.")
+    # memo slots bound more than once (hand-written; rewritten twice by this tool in run-first mode, which parks the
+    # value at one fixed key both times)
+    pool += [b"]q\x00]q\x00K\x07aa.", b"\x80\x02]q\x010}q\x010]q\x01K\x05a.", b"\x80\x04]\x94]q\x00K\x07aa."]
+    try:
+        import fickling.fickle as f_
+        for base in (pickle.dumps([1, 2], 2), pickle.dumps({"a": [1]}, 4)):
+            p2 = f_.Pickled.load(base)
+            p2.insert_python_eval("1+1", run_first=True, use_output_as_unpickle_result=False)
+            p2 = f_.Pickled.load(p2.dumps())
+            p2.insert_python_eval("2+2", run_first=True, use_output_as_unpickle_result=False)
+            pool.append(p2.dumps())
+    except Exception:
+        pass
     return pool
 
 
@@ -202,6 +215,33 @@ def check_inject(ctx, f, cli, parts, k, run_last, replace, source):
     if got[k] != exp.dumps():
         agg.violation("inject-target-differs", "target pickle differs from the library's injection with the same flags",
                       dict(w, got=got[k].hex()[:400], expected=expected.hex()[:400]))
+    # and what the emitted k-th pickle *does* (reference VM, stubs only): if the input's k-th runs, so does the emitted one;
+    # it performs the input's imports and calls plus the injected eval; without --replace-result it yields the same value
+    from vp import refvm
+    vm0, err0 = refvm.run_ref(parts[k])
+    if err0 is None:
+        vm1, err1 = refvm.run_ref(got[k])
+        agg.count("emitted_target_run_on_reference_vm")
+        if err1 is not None:
+            agg.violation("inject-target-does-not-run",
+                          f"the input's pickle {k} runs on the reference VM, the emitted one raises {type(err1).__name__}: {str(err1)[:100]}", w)
+            return
+        ev0 = [e for e in vm0.log.events if e[0] in ("call", "import")]
+        ev1 = [e for e in vm1.log.events if e[0] in ("call", "import")]
+        evals = [e for e in ev1 if e[0] == "call" and e[1][:3] == ("glob", "builtins", "eval")]
+        rest = [e for e in ev1 if not (e[0] == "call" and e[1][:3] == ("glob", "builtins", "eval")) and e[:3] != ("import", "builtins", "eval")]
+        base_rest = [e for e in ev0 if e[:3] != ("import", "builtins", "eval") and not (e[0] == "call" and e[1][:3] == ("glob", "builtins", "eval"))]
+        if len(evals) != 1 + sum(1 for e in ev0 if e[0] == "call" and e[1][:3] == ("glob", "builtins", "eval")) \
+                or [refvm.shallow_sig(e) for e in rest if e[0] == "call"] != [refvm.shallow_sig(e) for e in base_rest if e[0] == "call"]:
+            agg.violation("inject-target-does-something-else",
+                          f"the emitted pickle {k} does not perform the input's calls plus exactly one injected eval "
+                          f"({len(evals)} eval call(s), {sum(1 for e in rest if e[0] == 'call')} other call(s) for {sum(1 for e in base_rest if e[0] == 'call')})", w)
+            return
+        if not replace and refvm.canon(vm1.value) != refvm.canon(vm0.value):
+            agg.violation("inject-target-value-differs",
+                          f"without --replace-result the emitted pickle {k} unpickles to {str(refvm.canon(vm1.value))[:100]}, "
+                          f"the input's to {str(refvm.canon(vm0.value))[:100]}", w)
+            return
     if outt:
         agg.violation("inject-text-on-stdout", f"text mixed into the binary output: {outt[:80]!r}", w)
 
